@@ -152,7 +152,9 @@ class Session:
         self.path = ctx.tmpfile("c16-%s-%d.nix" % (os.getpid(), k))
         self.file = nix.File.open(self.path, nix.FileMode.Overwrite)
         self.block = self.file.create_block("blk", "t")
-        self.df = None
+        self.df = None          # the handle operations go through
+        self.handles = []       # live DataFrame objects of the frame under test (kept across operations)
+        self.cur = 0
         self.count = 0
 
     def close(self):
@@ -171,7 +173,27 @@ class Session:
         self.file.close()
         self.file = nix.File.open(self.path, nix.FileMode.ReadWrite)
         self.block = self.file.blocks[0]
-        self.df = self.block.data_frames[name]
+        self.handles = [self.block.data_frames[name], self.block.data_frames[name]]
+        self.cur = 0
+        self.df = self.handles[0]
+
+    MAX_HANDLES = 4
+
+    def use(self, k):
+        """make handle k the one operations go through; an index past the live handles fetches a new object
+        (block.data_frames[name] builds one per access); at most MAX_HANDLES are kept, the oldest slot is re-used"""
+        if k < 0:
+            raise ValueError("handle")
+        if k >= len(self.handles):
+            fresh = self.block.data_frames[self.df.name]
+            if len(self.handles) < self.MAX_HANDLES:
+                self.handles.append(fresh)
+                k = len(self.handles) - 1
+            else:
+                k = k % self.MAX_HANDLES
+                self.handles[k] = fresh
+        self.cur = k
+        self.df = self.handles[k]
 
     # -- observation -------------------------------------------------------------------
     def state(self):
@@ -208,7 +230,11 @@ class Session:
         self.df = None
         if kw.pop("compress", False):
             kw["compression"] = nix.Compression.DeflateNormal
+        self.handles = []
         self.df = self.block.create_data_frame("df%d" % self.count, "c16", **kw)
+        # the object returned by create_data_frame and one built by the container: two live handles from the start
+        self.handles = [self.df, self.block.data_frames[self.df.name]]
+        self.cur = 0
         return self.dump()
 
     def run(self, line, pres=0):
@@ -244,6 +270,9 @@ class Session:
             return self._create(data=arr)
         if op == "dump":
             return self.dump()
+        if op == "handle":
+            self.use(a[0])
+            return None
         if op == "reopen":
             self.reopen()
             return None
@@ -745,10 +774,21 @@ def play_history(ctx, k, stats, nops):
         hist.append((line, out))
         if "ok" not in out:
             return hist
+        def switch():
+            # another live object of the same frame (sometimes a newly fetched one): the model has one table per
+            # frame whatever handle is used, so every answer must be the same through each of them
+            hl = ["handle", rng.randrange(len(s.handles) + 1)]
+            stats["handle"] = stats.get("handle", 0) + 1
+            hist.append((hl, s.run(hl)))
+
         for _ in range(nops):
+            if rng.random() < 0.3:
+                switch()
             line, pres = gen_op(rng, s.state(), stats)
             hist.append((line, s.run(line, pres)))
             if line[0] not in READ_OPS:
+                if line[0] != "reopen" and rng.random() < 0.5:
+                    switch()
                 hist.append((["dump"], s.run(["dump"])))
         hist.append((["reopen"], s.run(["reopen"])))
         hist.append((["dump"], s.run(["dump"])))
@@ -806,7 +846,7 @@ def correspondence(ctx):
                 break
             if "err" in impl:
                 errs[line[0] + ":" + impl["err"]] = errs.get(line[0] + ":" + impl["err"], 0) + 1
-            if line[0] not in ("dump", "reopen"):
+            if line[0] not in ("dump", "reopen", "handle"):
                 seen.add(core.canon([h[0][0][0], line]))
         pos += len(h)
     disagreements.sort(key=lambda d: len(core.canon(d.case)))
@@ -866,12 +906,30 @@ def oracle_history(ctx, k, rng, nops, fixed=None):
         return Failure(what, [l for l in hist], observed, required, site)
 
     def check(sh, site):
-        got = _norm(s.dump())
         want = _norm(sh.dump())
-        for key in ("cols", "shape", "row_count", "rows", "units", "columns"):
-            if got[key] != want[key]:
-                return fail("after %s the frame's %s do not describe / return the written table" % (site, key),
-                            {key: got[key]}, {key: want[key]}, "nixio/data_frame.py:" + site)
+        cur = s.cur
+        # every live DataFrame object of the frame (kept across the operation, whichever object performed it) must
+        # describe and return the one stored table
+        for hi in range(len(s.handles)):
+            s.use(hi)
+            try:
+                got = _norm(s.dump())
+            except Exception as e:  # noqa: a read that fails is an observation, too
+                got = {key: "raised %s" % err_name(e) for key in want}
+            for key in ("cols", "shape", "row_count", "rows", "units", "columns"):
+                if got[key] != want[key]:
+                    via = "" if hi == cur else " (read through live handle %d, operation done through handle %d)" % (
+                        hi, cur)
+                    return fail("after %s the frame's %s do not describe / return the written table%s"
+                                % (site, key, via), {key: got[key]}, {key: want[key]}, "nixio/data_frame.py:" + site)
+        # the other read paths go through a kept handle other than the one that performed the operation
+        s.use((cur + 1) % len(s.handles))
+        try:
+            return check_reads(sh)
+        finally:
+            s.use(cur)
+
+    def check_reads(sh):
         df = s.df
         n, m = len(sh.rows), len(sh.names)
         if len(df) != n or tuple(df.shape) != (n,):
@@ -964,6 +1022,9 @@ def oracle_history(ctx, k, rng, nops, fixed=None):
             j += 1
             hist.append({"line": line, "expect": expect})
             evals += 1
+            if line[0] == "handle":
+                s.use(line[1])
+                continue
             if line[0] == "reopen":
                 s.reopen()
                 f = check(sh, "reopen")
@@ -1036,6 +1097,9 @@ def oracle_op(rng, sh):
     refuse = rng.random() < 0.25
     if kind == "reopen":
         return ["reopen"], "accept"
+    if rng.random() < 0.2:
+        # go on through another live object of the frame (index 4 = one more, fetched now)
+        return ["handle", rng.randrange(5)], "accept"
     if kind == "append_rows":
         rows = gen_rows(rng, types, rng.choice([0, 1, 2, 3]))
         if refuse and rows:
@@ -1133,6 +1197,16 @@ FIXED_CASES = [
     # read_cell by (name, row) in all four spellings is part of check(); text cell longer than one character
     [["create_dict", [["s", "text"], ["k", "i8"]], [[["s", "alpha"], ["i", -128]], [["s", "beta"], ["i", 127]]]],
      _acc(["write_cell_name", ["s", "gamma"], "s", 1])],
+    # two live objects of one frame: structural changes through one, reads and writes to the new last column / last
+    # row through the other (check() reads through every live object after each step)
+    [["create_dict", [["s", "text"], ["n", "i16"]], [[["s", "a"], ["i", 1]], [["s", "b"], ["i", 2]]]],
+     _acc(["set_units", [None, "mV"]]), _acc(["handle", 1]),
+     _acc(["append_column", [["f", "1/2"], ["f", "3/2"]], "x", "f64"]), _acc(["handle", 0]),
+     _acc(["write_column", [["f", "5/2"], ["f", "7/2"]], 2, None]), _acc(["set_units", [None, "mV", "s"]]),
+     _acc(["handle", 1]), _acc(["append_rows", [[["s", "c"], ["i", 3], ["f", "9/2"]]]]), _acc(["handle", 0]),
+     _acc(["write_cell_pos", ["f", "11/2"], [2, 2]]), _acc(["handle", 2]),
+     _acc(["append_column", [["b", True], ["b", False], ["b", True]], "flag", None]), _acc(["handle", 1]),
+     _acc(["write_cell_name", ["b", False], "flag", -1])],
     # creation with zero rows through data=[]
     [["create_dict", [["a", "i64"], ["s", "text"]], []], _acc(["append_rows", [[["i", 1], ["s", "x"]]]])],
     [["create_names_types", ["a", "s"], ["i64", "text"], []]],
